@@ -81,6 +81,9 @@ def gen_case(rng, shape=None):
                     v.reshape(-1)[q_] = np.inf if r_ < 0.125 else -np.inf
                 elif r_ < 0.3:
                     v.reshape(-1)[q_] = np.nan
+    if dt == 'f' and rng.random() < 0.2:
+        # single precision data (model output, satellite products): the same reductions, NaN handling included
+        sp["values"] = sp["values"].astype(np.float32)
     f = rng.choice(FUNCS + ['percentile', 'median'])
     if f == 'percentile' and dt == 'b':
         f = 'median'
@@ -192,6 +195,8 @@ def check(case, ctx):
     # pairwise summation follows the memory layout: the model (C-ordered copy) and the library (possibly Fortran-ordered
     # values) may differ in the last bits
     tol = dict(rtol=1e-9, atol=1e-12) if mode == 'tuple' else dict(rtol=1e-12, atol=1e-12) if sp.get("forder") else {}
+    if v.dtype == np.float32 and tol:
+        tol = dict(rtol=1e-4, atol=1e-6)          # (sums taken in another order, in single precision)
     ok = common.expect(ctx, ID, "reduce" if f != 'percentile' else "percentile", label, res, exc, exp=exp, **tol)
     if ok and common.is_da(res):
         from .. import monitors
